@@ -8,6 +8,7 @@ Outside: the relation of z to the true normal quantile (transcendental), binary6
 """
 from __future__ import annotations
 
+import fractions
 import math
 
 import z3
@@ -383,6 +384,20 @@ def ob_probit(timeout_ms):
             out["witnesses"].append({"kind": "probit", "alpha": float(av), "why": "negative z-score", "plain": ""})
         elif r == "unknown":
             note_unknown(out, "probit sign")
+        # never below the logit bound sqrt(pi/8)*|log(a/(1-a))| (root-free: both sides are >= 0, compare squares).  That
+        # bound is >= the normal quantile for every a (a fact about the reference formula, cited, not proved here): a z-score
+        # that can dip below it is handed to a numeric search for a point where it is below the true quantile.
+        lg = L(t1)
+        # (the code's constant is the ROUNDED square root of pi/8: allow a relative 1e-12)
+        c2 = z3.RealVal(str(fractions.Fraction(math.pi) / 8 * (1 - fractions.Fraction(1, 10 ** 12))))
+        r, m = common.check(tally, list(pa.conds) + ax + [za >= 0, za * za < c2 * lg * lg], timeout_ms,
+                            label="C18 probit(a) >= sqrt(pi/8)*|log(a/(1-a))|", keep_sample=True)
+        if r == "sat":
+            av = harness.model_value(m, a1, prefer_float=True)
+            out["witnesses"].append({"kind": "probit_quantile", "alpha": float(av),
+                                     "why": "the z-score can be smaller than the logit bound sqrt(pi/8)*|log(a/(1-a))|", "plain": ""})
+        elif r == "unknown":
+            note_unknown(out, "probit logit bound")
         for pb in returning(r2):
             zb = real(pb.outcome.value)
             # symmetry: alpha_b = 1 - alpha_a  =>  equal
